@@ -243,12 +243,12 @@ exit:
 
 	// interpret line directives
 	// (//line directives must start at the beginning of the current line)
-	if next >= 0 /* implies valid comment */ && len(lit) >= 2 && (lit[1] == '*' || offs == s.lineOffset) && bytes.HasPrefix(lit[2:], prefix) {
+	if next >= 0 /* implies valid comment */ && len(lit) >= 2 && (lit[0] == '/' && lit[1] == '*' || offs == s.lineOffset) && bytes.HasPrefix(lit[2:], prefix) {
 		s.updateLineInfo(next, offs, lit)
 	}
 
 	if numCR > 0 {
-		lit = stripCR(lit, lit[1] == '*')
+		lit = stripCR(lit, lit[0] == '/' && lit[1] == '*')
 	}
 
 	return string(lit)
@@ -261,7 +261,7 @@ var prefix = []byte("line ")
 // for the position next per the line directive.
 func (s *Scanner) updateLineInfo(next, offs int, text []byte) {
 	// extract comment text
-	if text[1] == '*' {
+	if text[0] == '/' && text[1] == '*' {
 		text = text[:len(text)-2] // lop off trailing "*/"
 	}
 	text = text[7:] // lop off leading "//line " or "/*line "
